@@ -1,1 +1,54 @@
-fn main(){}
+//! pcv_schema: worker for the postcard-schema / postcard-dyn properties (C14-C19).
+mod c14;
+mod conv;
+mod corpus;
+mod dynm;
+mod trees;
+
+use pcv_core::{cli, mem, run};
+
+fn main() {
+    let cfg = match cli::parse_args() {
+        Ok(c) => c,
+        Err(e) => {
+            eprintln!("{}", e);
+            std::process::exit(3);
+        }
+    };
+    if cfg.prop == "NOOP" {
+        return;
+    }
+    run::mark_start();
+    mem::install_panic_hook();
+    let _ = std::fs::create_dir_all(&cfg.out_dir);
+    let t0 = std::time::Instant::now();
+    let oracle = pcv_core::checks::oracle_selfcheck(&cfg);
+    let mut rep = match cfg.prop.as_str() {
+        "C14" => c14::run(&cfg),
+        "C15" => trees::run_c15(&cfg),
+        "C16" => trees::run_c16(&cfg),
+        "C17" => dynm::run_c17(&cfg),
+        "C18" => dynm::run_c18(&cfg),
+        "C19" => trees::run_c19(&cfg),
+        other => {
+            eprintln!("unknown property {}", other);
+            std::process::exit(3);
+        }
+    };
+    if cfg.replay.is_some() {
+        rep.stats.notes.push("replay files of the schema checks carry the full concrete case (schema Debug form, bytes / JSON); the check is re-run to reproduce".into());
+    }
+    match oracle {
+        Ok(j) => {
+            rep.extra.insert("oracle_selfcheck".into(), j);
+        }
+        Err(e) => rep.stats.inconclusive(format!("oracle self-check failed: {}", e)),
+    }
+    let (nviol, inconclusive) = rep.finish(&cfg, t0.elapsed().as_secs_f64());
+    if nviol > 0 {
+        std::process::exit(1);
+    }
+    if inconclusive {
+        std::process::exit(2);
+    }
+}
